@@ -194,10 +194,10 @@ theorem C52_random_unit_interval (s : Stream) (fuel p : Nat) (out : Out) (p' : N
 theorem C52_maybe (s : Stream) (p : Nat) :
     ((maybe s p).1 = .succeeds ↔ (s p).toNat < 2 ^ 31) ∧ ((maybe s p).1 = .fails ↔ 2 ^ 31 ≤ (s p).toNat) ∧
     (maybe s p).2 = p + 1 := by
-  unfold maybe sysMaybe w32
-  by_cases h : (s p).toNat < 2 ^ 31
-  · simp [h]
-  · simp [h]; omega
+  simp only [maybe, sysMaybe, w32, decide_eq_true_eq]
+  split
+  · rename_i h; exact ⟨⟨fun _ => h, fun _ => rfl⟩, ⟨fun hh => by cases hh, fun hh => by omega⟩, rfl⟩
+  · rename_i h; exact ⟨⟨fun hh => by cases hh, fun hh => absurd hh h⟩, ⟨fun _ => by omega, fun _ => rfl⟩, rfl⟩
 
 /-! ## uniformity of one attempt -/
 
@@ -338,6 +338,8 @@ example : (setRandomPinned (.seedInt 18446744073709551616) none).1 = .panic := b
 /-- the repaired one accepts them: `-1` is the seed `2^64 - 1`. -/
 example : setRandom (.seedInt (-1)) none = (.succeeds, some (18446744073709551615, 0)) := by decide
 /-- `ArgWf` is satisfiable in both representations, also for a small value in an arena integer. -/
-example : ArgWf 5 false ∧ ArgWf 5 true ∧ ArgWf (2 ^ 70) true := ⟨fun _ => by decide, fun h => by cases h, fun h => by cases h⟩
+example : ArgWf 5 false ∧ ArgWf 5 true ∧ ArgWf (2 ^ 70) true := by
+  unfold ArgWf
+  exact ⟨fun _ => by decide, fun h => by cases h, fun h => by cases h⟩
 
 end Scryer.Random
